@@ -212,12 +212,14 @@ fn corrupt_ibc(d: &str, kind: u8) -> String {
 }
 
 fn corrupt_denom(d: &str, kind: u8) -> String {
-    match kind % 7 {
+    match kind % 9 {
         0 => format!("{d}1"),
         1 => String::new(),
         2 => "abc".into(),
         3 => format!("{d}/x"),
         4 => format!("{d} "),
+        7 => format!(" {d}"),
+        8 => format!("\t{d}\n"),
         5 => format!("u\u{e9}{d}"),
         _ => format!("{d}-x"),
     }
@@ -540,6 +542,9 @@ pub fn check_cfg_case(c: &CfgCase, agg: &mut Agg) -> Result<(), String> {
     wf_fee(&cfg).map_err(ctx)?;
     wf_monitors(&cfg).map_err(ctx)?;
     let sub = cfg.liquid_stake_token_denom.strip_prefix(&format!("factory/{contract}/")).unwrap_or("/");
+    if !wf_alpha(&raw.subdenom) {
+        return Err(ctx(format!("the supplied token sub-denom {:?} is not alphabetic", raw.subdenom)));
+    }
     if !wf_alpha(sub) || !cfg.stopped {
         return Err(ctx(format!("LST denom {:?} / stopped={}", cfg.liquid_stake_token_denom, cfg.stopped)));
     }
